@@ -311,3 +311,62 @@ class FieldReads:
                 if s:
                     out.add(s)
         return out
+
+
+def singledispatch_registry(repo: Repo, module: str, fname: str
+                            ) -> Dict[str, FuncInfo]:
+    """{registered class qualname: handler} for `@<fname>.register` /
+    `@<fname>.register(T)` handlers defined in `module` (type from the
+    decorator argument or the first parameter's annotation; unions and
+    stacked registrations supported)."""
+    m = repo.module(module)
+    out: Dict[str, FuncInfo] = {}
+    for fn in repo._funcs_of(m):
+        if fn.parent is not None or fn.cls is not None:
+            continue
+        for d in fn.node.decorator_list:
+            target = d.func if isinstance(d, ast.Call) else d
+            if norm(target) != f'{fname}.register':
+                continue
+            types: List[ast.AST] = []
+            if isinstance(d, ast.Call) and d.args:
+                types = list(d.args)
+            else:
+                a = fn.node.args.posonlyargs + fn.node.args.args
+                if a and a[0].annotation is not None:
+                    types = [a[0].annotation]
+            flat: List[ast.AST] = []
+            for t in types:
+                flat.extend(_union_members(t))
+            for t in flat:
+                if isinstance(t, ast.Constant) and isinstance(t.value, str):
+                    try:
+                        t = ast.parse(t.value, mode='eval').body
+                    except SyntaxError:
+                        continue
+                q = repo.resolve_expr(m, t)
+                if q:
+                    out[q] = fn
+    return out
+
+
+def _union_members(t: ast.AST) -> List[ast.AST]:
+    if isinstance(t, ast.BinOp) and isinstance(t.op, ast.BitOr):
+        return _union_members(t.left) + _union_members(t.right)
+    if isinstance(t, ast.Subscript) and norm(t.value).endswith('Union'):
+        s = t.slice
+        return list(s.elts) if isinstance(s, ast.Tuple) else [s]
+    if isinstance(t, ast.Tuple):
+        out = []
+        for e in t.elts:
+            out += _union_members(e)
+        return out
+    return [t]
+
+
+def dispatch(repo: Repo, registry: Dict[str, FuncInfo], cls_q: str
+             ) -> Optional[FuncInfo]:
+    for k in repo.mro(cls_q):
+        if k in registry:
+            return registry[k]
+    return None
